@@ -17,6 +17,14 @@ import posixpath
 from vf.common import Shard
 
 PROPERTY = "C33"
+META = {
+    "text": "Exhaustive comparison of compare_tags with the numeric (depth, components) key on all rooted tags of depth <= 3 "
+            "(components 0..12), sampled/exhaustive triples for transitivity, sort agreement, random deep multi-digit tags, "
+            "get_tag on shuffled prefix chains with duplicates and the job-name split (incl. the root step '/'); an icontract "
+            "post-condition judges every compare_tags call at the function's own boundary.",
+    "note": "tags are rooted at '0' and made of decimal components (what the engine creates); held on the enumerated/sampled inputs only",
+    "technique": "exhaustive small-scope enumeration + icontract post-condition against a numeric reference key",
+}
 
 
 def plan(tier):
